@@ -1,6 +1,14 @@
 /-
   Props/C10.lean — Markov products equal the explicit left-to-right fold over time.
   All theorems hold in any semigroup (`f` associative), for lists of any length.
+
+  Further modules of this property:
+    Props/C10/Sarkka.lean   sarkka_bilmes_product: name / period / slice / block arithmetic, `sarkka_eq_naive`
+                            on the window chain (all periods, durations, num_periods, prefix recursion)
+    Props/C10/Sem.lean      the same in a function semantics over absolute time steps (`sarkkaFull_eq_naive`),
+                            and `sarkka_eq_naive_partial` (what is proved / what is missing)
+    Props/C10/Eager.lean    the four branches of eager_markov_product (`markov_eager_empty_step`, …)
+    Props/C10/Matrix.lean   instantiation at Mathlib's `Matrix n n R` over a semiring (`matrix_mul_assoc`, …)
 -/
 import FunsorVerif.Model.C10
 import Mathlib.Tactic.Ring
